@@ -40,7 +40,7 @@ STYLES = ['google', 'freeform', 'auto']
 def required_cells(tier):
     return ['style:google', 'style:freeform', 'style:auto', 'feature:async', 'feature:nested-func',
             'feature:class-in-func', 'feature:method:setter', 'feature:method:deleter', 'feature:method:nestedcls',
-            'feature:top:main', 'feature:module-docstring', 'feature:top:adeco', 'feature:top:ctxmgr', 'feature:top:subclass', 'feature:top:handler', 'feature:top:matcharm', 'feature:top:tryelse', 'feature:top:forbody', 'feature:method:setter_stacked', 'feature:method:getter_again', 'feature:top:notmain', 'feature:top:bytesdoc', 'feature:main-guard-else', 'feature:google-header-on-the-opening-line', 'feature:google-headers-in-other-spellings', 'feature:method:ctxmethod', 'feature:top:rewrap', 'feature:method:rewrapped', 'feature:google-block-goes-on-behind-empty-lines', 'feature:freeform-block-left-out', 'tree:missing-init', 'tree:ok', 'tree:holds-an-unparsable-module', 'history:file-edited-then-collected-again', 'history:repaired-after-a-syntax-error', 'tree:by-name:not-imported', 'tree:by-name:imported', 'tree:by-name:same-name-in-the-working-directory',
+            'feature:top:main', 'feature:module-docstring', 'feature:top:adeco', 'feature:top:ctxmgr', 'feature:top:subclass', 'feature:top:handler', 'feature:top:matcharm', 'feature:top:tryelse', 'feature:top:forbody', 'feature:method:setter_stacked', 'feature:method:getter_again', 'feature:top:notmain', 'feature:top:bytesdoc', 'feature:main-guard-else', 'feature:google-header-on-the-opening-line', 'feature:google-headers-in-other-spellings', 'feature:method:ctxmethod', 'feature:top:rewrap', 'feature:method:rewrapped', 'feature:google-block-goes-on-behind-empty-lines', 'feature:freeform-block-left-out', 'feature:google-body-at-the-indentation-of-its-header', 'feature:google-empty-line-under-the-header', 'tree:missing-init', 'tree:ok', 'tree:holds-an-unparsable-module', 'history:file-edited-then-collected-again', 'history:repaired-after-a-syntax-error', 'tree:by-name:not-imported', 'tree:by-name:imported', 'tree:by-name:same-name-in-the-working-directory',
             'cli-list', 'calldefs']
 
 
